@@ -347,7 +347,8 @@ func (r *resolver) applyDeviation(y *Module, d *Deviation) error {
 			hasType.setUnits(d.Add.units)
 		}
 		if d.Add.HasDefault() {
-			if hasType.HasDefault() {
+			// a leaf-list may hold several defaults, more can be added
+			if _, multi := hasType.(HasDefaultValues); !multi && hasType.HasDefault() {
 				return fmt.Errorf("default already set on %s", d.Ident())
 			}
 			for _, deflt := range d.Add.Default() {
@@ -419,12 +420,34 @@ func (r *resolver) applyDeviation(y *Module, d *Deviation) error {
 			case []string:
 				have = x
 			}
-			if strings.Join(have, "\x00") != strings.Join(d.Delete.Default(), "\x00") {
+			// each named default must be there, the others stay (leaf-list)
+			remaining := have
+			for _, gone := range d.Delete.Default() {
+				found := false
+				var keep []string
+				for _, candidate := range remaining {
+					if !found && candidate == gone {
+						found = true
+					} else {
+						keep = append(keep, candidate)
+					}
+				}
+				if !found {
+					return fmt.Errorf("cannot delete default '%s' != '%s' on %s",
+						d.Delete.Default(), hasType.DefaultValue(),
+						d.Ident())
+				}
+				remaining = keep
+			}
+			if v, multi := hasType.(HasDefaultValues); multi && len(remaining) > 0 {
+				v.setDefault(remaining)
+			} else if len(remaining) > 0 {
 				return fmt.Errorf("cannot delete default '%s' != '%s' on %s",
 					d.Delete.Default(), hasType.DefaultValue(),
 					d.Ident())
+			} else {
+				hasType.clearDefault()
 			}
-			hasType.clearDefault()
 		}
 		for _, unique := range d.Delete.unique {
 			found := false
